@@ -395,7 +395,10 @@ pub fn check_c06(q: &ConeQ, part: &mut Part) -> Option<Viol> {
     if full && q.variant != 1 {
       let thr = chord2_of_angle(q.r + 1e-9);
       if q.r + 1e-9 < PI {
-        let wit: Vec<[f64; 3]> = if (d as usize) < 6 {
+        let wit: Vec<[f64; 3]> = if out.entries.len() > 100_000 {
+          // huge outputs: vertices, edge mid-points and centre only
+          cell_witnesses(d, h, 3).iter().map(|&(l, b)| unit_vec(l, b)).collect()
+        } else if (d as usize) < 6 {
           let t = witness_tab(d);
           t.wit[(h as usize) * WK * WK..(h as usize + 1) * WK * WK].to_vec()
         } else {
@@ -595,6 +598,17 @@ pub fn run(ctx: &Ctx, c06: bool) -> i32 {
       }
     }
   }
+  // deep-huge stratum: radius / cell size > 1e5 (17+ levels below the start depth, outputs of
+  // ~1e6 cells)
+  {
+    let specs: Vec<(u8, f64, f64, f64)> = if quick { vec![(17, 0.83, 1.0, 0.3)] } else { vec![(17, 0.83, 1.0, 0.3), (18, 0.45, 4.0, -0.66), (20, 0.11, 0.3, 1.0), (22, 0.0175, 2.5, 0.35), (25, 2.2e-3, 1.0, 0.62), (28, 3.0e-4, 5.5, -0.2)] };
+    for (d, r, lon, lat) in specs {
+      large_q.push(ConeQ { variant: 0, depth: d, delta: 0, lon, lat, r });
+      if !quick {
+        large_q.push(ConeQ { variant: 2, depth: d - 1, delta: 1, lon, lat, r });
+      }
+    }
+  }
   let n_regular = jobs.len();
   for k in 0..large_q.len() {
     jobs.push((large_q[k].depth, usize::MAX / 2 + k, true));
@@ -605,7 +619,7 @@ pub fn run(ctx: &Ctx, c06: bool) -> i32 {
     let mut part = Part::new();
     if ci >= usize::MAX / 2 && ci < usize::MAX / 2 + 100_000 {
       let q = large_q[ci - usize::MAX / 2];
-      part.stratum("deep-large", 1, 1);
+      part.stratum(if q.r * (1u64 << q.depth) as f64 > 5.0e4 { "deep-huge" } else { "deep-large" }, 1, 1);
       if c06 {
         if let Some(v) = check_c06(&q, &mut part) {
           part.viol(v);
